@@ -81,3 +81,211 @@ def number_case(apply_filters):
 
 for _af in (False, True):
     REG.add(number_case(_af))
+
+
+# ---------------------------------------------------------------------------------------------------
+# catalog spatial test: normalised spatial pseudo-likelihood of every synthetic catalog; NaN (undefined) entries are
+# removed from the test distribution; an empty observation is reported as 'not-valid'
+# ---------------------------------------------------------------------------------------------------
+from pyvc.core import MaybeNan, Opaque
+from pyvc.lib import method, LOG, SUM, CNT, NAN
+from contracts.catforecast import CatSort
+
+SCF = z3.Function('spatial_counts_of', CatSort, z3.IntSort(), z3.RealSort())
+CL = 'csep.utils.calc._compute_likelihood'
+
+
+@method('catalog', 'spatial_counts')
+def _cat_spatial_counts(L, cat, *a, **k):
+    n0 = L.ctx.ghost['n_cells']
+    key = cat.key
+    i = z3.Int('i!sc')
+    L.ctx.fact(z3.ForAll([i], SCF(key, i) >= 0, patterns=[SCF(key, i)]))
+    return Arr((n0,), lambda ix: SCF(key, to_z3(ix[0])), 'float64')
+
+
+def _rsum(fn, n):
+    i = z3.Int('i!lam')
+    return SUM(z3.Lambda([i], to_real(fn(i))), to_z3(n))
+
+
+def lnorm_spec(counts, rates, n_cells):
+    """(total, sum_{g>0} g * log(rate / sum rate)) of a gridded catalog"""
+    tot_rate = _rsum(lambda i: rates.f((i,)), n_cells)
+    total = _rsum(counts, n_cells)
+    lln = _rsum(lambda i: z3.If(to_real(counts(i)) != 0, to_real(counts(i)) * LOG(to_real(rates.f((i,))) / tot_rate), z3.RealVal(0)), n_cells)
+    return total, lln
+
+
+class SpatialLoop(PassInv):
+    """test_distribution holds, for every catalog of the pass seen so far, its normalised spatial pseudo-likelihood, or NaN
+    where that is undefined (catalog without events, empty observation, zero expected count)"""
+
+    def havoc(self, I, fr, i, it):
+        self.ISN = I.ctx.fresh_fun('entry_is_nan', z3.IntSort(), z3.BoolSort())
+        self.VAL = I.ctx.fresh_fun('entry_value', z3.IntSort(), z3.RealSort())
+        ISN, VAL = self.ISN, self.VAL
+        fr.locals['test_distribution'] = SymList(to_z3(i), lambda s: MaybeNan(ISN(to_z3(s)), VAL(to_z3(s))), 'test_distribution')
+        for nm in ('gridded_cat', 'lh_norm', '_'):
+            fr.locals.pop(nm, None)
+
+    def at_exit(self, I, fr, it):
+        PassInv.at_exit(self, I, fr, it)
+        # L3b_count_pos (Lean): a catalog whose entry is a number is counted among the entries that are numbers.  Instance at
+        # the catalog the precondition names (some synthetic catalog is not empty when the expected count is not zero).
+        fo = self.forecast(it)
+        J = to_z3(fo.fields['n_cat'])
+        j0 = I.ctx.ghost.get('some_nonempty_catalog')
+        if j0 is not None and hasattr(self, 'ISN'):
+            t = z3.Int('i!lam')
+            I.ctx.fact(z3.Implies(z3.And(0 <= j0, j0 < J, z3.Not(self.ISN(j0))),
+                                  CNT(z3.Lambda([t], z3.Not(self.ISN(t))), J) >= 1), lemma=True)
+            I.used_lemmas.add('L3.count_pos')
+
+    def inv(self, I, fr, i, it):
+        yield from PassInv.inv(self, I, fr, i, it)
+        fo = self.forecast(it)
+        lst = fr.locals['test_distribution']
+        n_l = to_z3(lst.n) if isinstance(lst, SymList) else z3.IntVal(len(lst))
+        yield 'one entry per catalog seen', n_l == to_z3(i)
+        if isinstance(lst, list):
+            return
+        rates = fr.locals['forecast_mean_spatial_rates']
+        n_cells = I.ctx.ghost['n_cells']
+        n_obs, E = to_real(fr.locals['n_obs']), to_real(fr.locals['expected_cond_count'])
+
+        def clause(s):
+            e = MaybeNan.of(lst.f(s))
+            total, lln = lnorm_spec(lambda a: SCF(self.pass_key(fo, s), a), rates, n_cells)
+            undefined = z3.Or(total == 0, n_obs == 0, E == 0)
+            return z3.And(e.isnan == undefined, z3.Implies(z3.Not(undefined), e.val * total == lln))
+        if self.mode == 'prove':
+            s = I.ctx.fresh_int('s!sk')
+            cur = simp(to_z3(i) - 1)
+            yield 'earlier entries are kept', z3.Implies(z3.And(0 <= s, s < cur), clause(s))
+            yield 'the new entry is the normalised spatial pseudo-likelihood of its catalog (NaN iff undefined)', z3.Implies(
+                cur >= 0, clause(cur))
+        else:
+            s = z3.Int('s!inv')
+            yield 'spec', z3.ForAll([s], z3.Implies(z3.And(0 <= s, s < to_z3(i)), clause(s)),
+                                    patterns=[self.ISN(s), self.VAL(s)] if hasattr(self, 'ISN') else [])
+
+
+def spatial_case(apply_filters):
+    loop = SpatialLoop()
+
+    def directed_spatial():
+        """concrete forecasts (conventions of rt/oracles_catfc.catfc_test): empty synthetic catalogs among non-empty ones, empty
+        and non-empty observations, all inside the sampled cells"""
+        g = {'nx': 2, 'ny': 2, 'dh': 1.0, 'x0': 0.0, 'y0': 0.0, 'mags': [4.0, 5.0, 6.0]}
+        fam = []
+        for syn in ([[], [[0, 0]], [[1, 1], [1, 2]]], [[[0, 0], [0, 1], [2, 2], [2, 0]], [], []], [[[3, 1]] * 3 + [[0, 0]], [[1, 0]]]):
+            cells = sorted({c for ev in syn for c, _ in ev})
+            for obs in ([], [[cells[0], 0]], [[cells[0], 0], [cells[-1], 1], [cells[0], 2]]):
+                fam.append(('catfc_test', dict(test='spatial_test', grid=g, synthetic=syn, observed=obs, source='list')))
+        return fam
+
+    class ST:
+        directed = staticmethod(directed_spatial)
+        qualname = CE + 'spatial_test'
+        case = 'list-backed catalog forecast with expected rates, apply_filters=%s' % apply_filters
+        properties = ('C10',)
+        loops = {0: loop}
+
+        def params(c):
+            from pyvc.core import Lam
+            n0 = c.int('n_cells')
+            c.ctx.assume(n0 >= 1)
+            c.ctx.ghost['n_cells'] = n0
+            j0 = c.int('some_nonempty_catalog')
+            c.ctx.ghost['some_nonempty_catalog'] = j0
+            rates = c.arr('mean_spatial_rates', 'float64', n=n0)
+            E = c.real('expected_cond_count')
+            exp = c.obj(None, sum=Lam(lambda *a, **k: E), spatial_counts=Lam(lambda *a, **k: rates))
+            fo, J, nE = _list_forecast(c, apply_filters, min_magnitude=c.real('min_mw'), expected_rates=exp,
+                                       region=c.obj(None, name='region'))
+            obs_counts = c.arr('observed_spatial_counts', 'float64', n=n0)
+            obs = c.obj(None, event_count=c.int('n_obs_events'), name='obs', spatial_counts=Lam(lambda *a, **k: obs_counts))
+            return dict(forecast=fo, observed_catalog=obs, verbose=False, _v=dict(J=J, rates=rates, E=E, obs=obs_counts, n0=n0, j0=j0))
+
+        def requires(c, forecast, observed_catalog, verbose, _v):
+            rates, obs, n0 = _v['rates'], _v['obs'], _v['n0']
+            i = z3.Int('i!rq')
+            return [observed_catalog.fields['event_count'] >= 0,
+                    z3.ForAll([i], z3.Implies(z3.And(0 <= i, i < n0), rates.f((i,)) >= 0), patterns=[rates.f((i,))]),
+                    z3.ForAll([i], z3.Implies(z3.And(0 <= i, i < n0), obs.f((i,)) >= 0), patterns=[obs.f((i,))]),
+                    # observed events only in cells some synthetic catalog sampled (otherwise: the 'undersampled' path, bounded only)
+                    z3.ForAll([i], z3.Implies(z3.And(0 <= i, i < n0, obs.f((i,)) > 0), rates.f((i,)) > 0), patterns=[obs.f((i,))]),
+                    # the expected count is the mean size of the synthetic catalogs (what get_expected_rates establishes: C13);
+                    # used in the form: a non-zero expected count means some synthetic catalog has an event (L4_sum_ne_zero_exists)
+                    z3.Implies(_v['E'] != 0, z3.And(0 <= _v['j0'], _v['j0'] < _v['J'], ST.size_of(_v, _v['j0']) != 0))]
+
+        @staticmethod
+        def size_of(_v, j):
+            key = (lambda k: FILT(SRC(k))) if apply_filters else (lambda k: SRC(k))
+            a = z3.Int('i!lam')
+            return SUM(z3.Lambda([a], SCF(key(j), a)), _v['n0'])
+
+        def ensures(c, r, forecast, observed_catalog, verbose, _v):
+            J, rates, E, obs, n0 = _v['J'], _v['rates'], _v['E'], _v['obs'], _v['n0']
+            key = (lambda k: FILT(SRC(k))) if apply_filters else (lambda k: SRC(k))
+            yield 'returns a result object', z3.BoolVal(isinstance(r, Obj))
+            n_obs = _rsum(lambda i: obs.f((i,)), n0)
+            total_o, lln_o = lnorm_spec(lambda a: obs.f((a,)), rates, n0)
+            undefined_o = z3.Or(total_o == 0, n_obs == 0, E == 0)
+            st = r.fields.get('status')
+            os_ = r.fields.get('observed_statistic')
+            q = r.fields.get('quantile')
+            yield 'status is a definite string', z3.BoolVal(st in ('normal', 'not-valid', 'undersampled'))
+            if st == 'not-valid':
+                yield "'not-valid' only when the statistic of the observation is undefined (no observed events / zero expected count)", undefined_o
+                yield "'not-valid': no numeric quantile", z3.BoolVal(isinstance(q, tuple) and q == (-1, -1))
+            else:
+                yield 'a quantile is reported only when the observed statistic is defined', z3.Not(undefined_o)
+                yield 'observed statistic == normalised spatial pseudo-likelihood of the observed catalog', z3.BoolVal(
+                    not isinstance(os_, (MaybeNan, Opaque))) if isinstance(os_, (MaybeNan, Opaque)) else to_real(os_) * total_o == lln_o
+                calls = c.calls(GQ)
+                yield 'quantiles come from get_quantiles (one call)', z3.BoolVal(len(calls) == 1)
+                if calls:
+                    loc, out = calls[0][1], calls[0][2]
+                    yield 'quantile == (delta_1, delta_2)', z3.BoolVal(isinstance(q, tuple) and len(q) == 2 and q[0] is out[0] and q[1] is out[1])
+                    yield 'evaluated at the observed statistic', z3.BoolVal(loc['obs_count'] is os_)
+            td = r.fields.get('test_distribution')
+            yield 'test distribution is an array', z3.BoolVal(isinstance(td, Arr) and td.ndim == 1)
+            if isinstance(td, Arr):
+                # every entry of the reported distribution is a number (NaN entries removed) ...
+                nf = getattr(td, 'nan_f', None)
+                j = c.ctx.fresh_int('j!sk')
+                if nf is not None:
+                    yield 'no NaN is left in the test distribution', z3.Implies(z3.And(0 <= j, j < to_z3(td.shape[0])), z3.Not(to_z3(nf((j,)))))
+                # ... and their number is the number of synthetic catalogs whose statistic is defined
+                t = z3.Int('i!cnt')
+
+                def defined(s):
+                    total, _ = lnorm_spec(lambda a: SCF(key(s), a), rates, n0)
+                    return z3.Not(z3.Or(total == 0, n_obs == 0, E == 0))
+                sels = list((c.ctx.ghost.get('selections') or {}).values())
+                if sels:
+                    from pyvc.contracts import pointwise_count_hint
+                    g = sels[-1]
+                    for f in c.ctx.facts:
+                        if z3.is_eq(f) and f.arg(0).eq(g['m']) and z3.is_app(f.arg(1)) and f.arg(1).decl().name() == 'CNT':
+                            h = pointwise_count_hint(c, 'an entry is kept iff the statistic of its catalog is defined', f.arg(1), defined, J)
+                            if h:
+                                yield h
+                if td.ghost.get('selection') is None:
+                    # nothing was removed (no entry is NaN): every catalog's statistic is defined - L3b_count_all
+                    s0 = c.ctx.fresh_int('s!all')
+                    if hasattr(loop, 'ISN'):
+                        yield 'hint:loop invariant at an arbitrary catalog', z3.Implies(
+                            z3.And(0 <= s0, s0 < J), loop.ISN(s0) == z3.Not(defined(s0)))
+                    yield ('hint:no NaN entry: every statistic is defined', z3.Implies(z3.And(0 <= s0, s0 < J), defined(s0)),
+                           CNT(z3.Lambda([t], defined(t)), J) == J)
+                yield 'one entry per synthetic catalog whose statistic is defined', \
+                    to_z3(td.shape[0]) == CNT(z3.Lambda([t], defined(t)), J)
+    ST.__name__ = 'CatalogSpatialTest_%s' % apply_filters
+    return ST
+
+
+for _af in (False, True):
+    REG.add(spatial_case(_af))
